@@ -9,6 +9,7 @@ Translated from the CURRENT source text (stdlib `ast` only, nothing of cogent3 i
     UPGMA.find_smallest_index, condense_matrix, condense_node_order
     UPGMA.UPGMA_cluster                               -> the body of the `for` loop as a step function on (matrix, node_order, tree)
     UPGMA.inputs_from_dict_array                      -> (array + eye * BIG_NUM, one PhyloNode per key)
+    nj.LightweightTreeTip.convert / LightweightTreeNode.convert -> the value stored in `.length` (`max(0.0, length)`)
 
 Every numpy / list operation is mapped to ONE primitive of lean/CogentModel/Model/TreeNumpy.lean (2-D arrays are entry
 functions, the side `n` of the square array is an explicit parameter; exact rationals).  Elementwise arithmetic becomes a
@@ -695,6 +696,22 @@ def _cluster_step(fdef, known):
     return text, fn.notes + fn2.notes
 
 
+def _convert_length(fdef, key):
+    """`convert` of LightweightTreeTip / LightweightTreeNode: the value stored in `node.length` as a function of `length`
+    (the constructor call and, for inner nodes, the recursion over the children stay hand-modelled)"""
+    found = []
+    for nd in ast.walk(fdef):
+        if isinstance(nd, ast.Assign) and len(nd.targets) == 1 and isinstance(nd.targets[0], ast.Attribute) and nd.targets[0].attr == "length":
+            found.append(nd.value)
+    if len(found) != 1:
+        raise Unsupported(f"{key}: expected exactly one assignment to `.length`, found {len(found)}")
+    fn = Fn(fdef, {}, {"length": "S"}, ("return", "S"))
+    t, v = fn.ex(found[0], {"length": "S"})
+    if t != "S":
+        raise Unsupported(f"{key}: `.length` is assigned a {t}")
+    return v
+
+
 def _funcs(path: Path):
     tree = ast.parse(path.read_text())
     out = {}
@@ -736,6 +753,15 @@ def translate(src: Path):
         "`PartialTree.join(i, j)`: (d, nodes, score) of the returned PartialTree (n = len(self.d))", selfmap)
     one(nj, "PartialTree.asScoreTreeTuple", "final_lengths", {"d": "M", "nodes": "TL", "score": "S"}, ("var", "lengths", "V"),
         [("n", "Nat"), ("d", "Arr")], "Vec", "`lengths` of `PartialTree.asScoreTreeTuple` (n = len(self.d) = 3)", selfmap)
+    for key, lean_name in (("LightweightTreeTip.convert", "tip_convert_length"), ("LightweightTreeNode.convert", "node_convert_length")):
+        if key not in nj:
+            problems.append(f"{key} not found")
+            continue
+        try:
+            v = _convert_length(nj[key], key)
+            parts.append(f"/-- the `length` that `{key}` stores in the node it builds -/\ndef {lean_name} (length : Rat) : Rat :=\n  {v}")
+        except Unsupported as e:
+            problems.append(f"{key}: {e}")
     one(up, "find_smallest_index", "find_smallest_index", {"matrix": "M"}, ("return", "P"),
         [("n", "Nat"), ("matrix", "Arr")], "Nat × Nat", "`find_smallest_index` (n = matrix.shape[0])")
     known["find_smallest_index"] = ("find_smallest_index", ["M"], "P", True)
